@@ -43,6 +43,7 @@ def run(facts, rep, tier):
     R = facts.get("stdlib_web") or F
     rep.assumptions += ["rustc nightly MIR and is_const_fn describe the program the stable toolchain builds"]
     sharedkernel(F, rep)
+    rawarith(F, rep)
     cycle(F, rep)
     samelang(F, rep)
     operands_evaluated(F, rep)
@@ -123,6 +124,58 @@ def sharedkernel(F, rep):
                                 "%s handles StringAccessError::%s through %s instead of raise(IncanError::%s()): "
                                 "the run-time failure differs from the canonical one the compile-time evaluator "
                                 "reports" % (wrapper, v, callees, want[v]), file=w.file, line=w.line, fn=wrapper))
+
+
+DIV_METHODS = ("checked_div", "checked_rem", "wrapping_div", "wrapping_rem", "overflowing_div", "overflowing_rem",
+               "div_euclid", "rem_euclid", "checked_div_euclid", "checked_rem_euclid", "wrapping_div_euclid",
+               "wrapping_rem_euclid", "saturating_div", "powi", "powf", "pow", "checked_pow", "wrapping_pow")
+PY_KERNELS = ("incan_core::py_floor_div_i64_impl", "incan_core::py_mod_i64_impl", "incan_core::py_mod_f64_impl",
+              "incan_core::py_floor_div_f64_impl")
+
+
+def raw_div_sites(f):
+    """Sites in f that compute a quotient / remainder / power with Rust's native semantics."""
+    out = []
+    for b in f.blocks:
+        for st in b["st"]:
+            if st["s"] == "assign" and st["rv"]["r"] == "bin" and st["rv"]["op"] in ("Div", "Rem"):
+                out.append((st["rv"]["op"], st.get("ln")))
+    for bi, t in f.calls():
+        g = callee_generic(t) or ""
+        last = g.split("::")[-1].split("<")[0]
+        if last in DIV_METHODS and ("core::num" in g or "f64" in g or "std::f64" in g):
+            out.append((last, t.get("ln")))
+    return out
+
+
+def rawarith(F, rep):
+    """RAWARITH — the const evaluator never folds `//`, `%`, `/` or `**` with Rust's native operators: Rust truncates
+    toward zero and takes the sign of the dividend, Incan floors and takes the sign of the divisor, so a folded value
+    would differ from the run-time one for operands of opposite sign. Folding is only sound through the shared
+    kernels (incan_core::py_*_impl)."""
+    ce = [p for p in F.fns if p.startswith("incan::frontend::typechecker::const_eval")]
+    # detector self-check: the kernels themselves must show up as raw division sites
+    seen = sum(len(raw_div_sites(F.fns[k])) for k in PY_KERNELS if k in F.fns)
+    rep.floor("RAWARITH", "native Div/Rem sites found in the incan_core kernels (detector self-check)", seen, 3)
+    n = 0
+    for p in sorted(ce):
+        f = F.fns[p]
+        sites = raw_div_sites(f)
+        n += 1
+        ok = not sites
+        rep.oblige("RAWARITH", fn_short(p), ok, sample={"rule": "RAWARITH", "fn": p, "native_div_sites": sites[:4]})
+        for i, (what, ln) in enumerate(sites):
+            rep.add(Finding("RAWARITH", "RAWARITH|%s|%s#%d" % (fn_short(p), what, i + 1),
+                            "the const evaluator computes with Rust's native `%s` in %s: compile-time `//`, `%%` "
+                            "follow truncation / sign-of-dividend while run time (py_floor_div / py_mod) floors and "
+                            "follows the divisor — e.g. a const `-7 // 2` would be -3 at compile time and -4 at run "
+                            "time" % (what, fn_short(p)), file=f.file, line=ln, fn=p))
+    rep.floor("RAWARITH", "functions of the const evaluator", n, 8)
+
+
+def fn_short(p):
+    import panicinv
+    return panicinv.fn_short(p)
 
 
 def cycle(F, rep):
